@@ -1,64 +1,62 @@
 /-
   C09 — Rules behave the same inline, as session rules and as persistent rules.
 
-  Model: ILV.Model.Text (token-level `Display` of arithmetic / terms / atoms / rules, the splitting
+  Model: ILV.Model.RuleText (token-level `Display` of arithmetic / terms / atoms / rules, the splitting
   parser of src/parser/mod.rs on tokens, `SerializableRule::from_rule/to_rule`, the catalog file,
-  the three submission paths).  Lemmas: ILV.Lemmas.Text.
+  the submission paths) — after the repairs `integral_float_literal` (floats printed with `{:?}`),
+  `atom_arg_ends_paren` (`parse_atom` strips one `)`), `sci_tail_variable` (exponent guard only after a
+  numeric token), `nonfinite_float_json` (non-finite constants rejected), `json_float_inexact`
+  (serde_json `float_roundtrip`) and the boolean / function-call part of `serialize_drops_term`.
+  Lemmas: ILV.Lemmas.RuleText, TextSplit, TextRule.
 -/
 import ILV.Lemmas.TextRule
 namespace ILV.Props.C09
 open ILV.RText
 
-/-! ### arithmetic: parse ∘ print = id -/
+/-! ### parse ∘ print = id -/
 
-/-- For every arithmetic expression whose float literals keep their kind when printed and in which no
-    `+`/`-` follows an identifier ending in `<digit>e`, the splitting parser reads the printed tokens
-    back to the same tree — at every nesting depth, for every operator combination (the printer's
-    parenthesisation rule "left iff lower, right iff lower-or-equal" against the right-most-split parser). -/
-theorem arith_roundtrip (e : AExpr) (hl : e.litStable = true) (hs : e.sciHidden = false) :
-    parseArith (printArith e) = some e := by
+/-- For every arithmetic expression whose variables do not look like numbers and whose float constants
+    are finite and carry their `{:?}` text, the splitting parser reads the printed tokens back to the same
+    tree — at every nesting depth, for every operator combination (the printer's parenthesisation rule
+    "left iff lower, right iff lower-or-equal" against the right-most-split parser). -/
+theorem arith_roundtrip (e : AExpr) (h : e.leavesOk = true) : parseArith (printArith e) = some e := by
   unfold parseArith
-  have h := height_le_length e
-  exact (parse_levels e hl hs).1 _ (by omega)
+  have hl := height_le_length e
+  exact (parse_levels e (litStable_of_leavesOk e h) (sciHidden_of_leavesOk e h) (allFinite_of_leavesOk e h)).1 _ (by omega)
 
-/-- hypotheses met by a non-trivial expression: `(Y + 1) * 2 - X / (Z - 2.5) % 3` -/
+/-- `(Y + 1) * 2.0 - V1e / (Z - 2.5) % 3` — integral float and `<digit>e` identifier included -/
 example :
-    let e : AExpr := .bin .sub (.bin .mul (.bin .add (.var "Y") (.const 1)) (.const 2))
-      (.bin .mod (.bin .div (.var "X") (.bin .sub (.var "Z") (.flt ⟨0x4004000000000000, "2.5", none⟩))) (.const 3))
-    e.litStable = true ∧ e.sciHidden = false ∧ parseArith (printArith e) = some e := by decide
+    let e : AExpr := .bin .sub (.bin .mul (.bin .add (.var "Y") (.const 1)) (.flt ⟨0x4000000000000000, "2.0", none⟩))
+      (.bin .mod (.bin .div (.var "V1e") (.bin .sub (.var "Z") (.flt ⟨0x4004000000000000, "2.5", none⟩))) (.const 3))
+    e.leavesOk = true ∧ parseArith (printArith e) = some e := by decide
 
-/-- without `litStable` the statement is false: `Y*2.0` prints as `Y*2` and reads back with an integer. -/
-theorem arith_roundtrip_needs_litStable :
-    ∃ e : AExpr, e.sciHidden = false ∧ parseArith (printArith e) ≠ some e :=
-  ⟨.bin .mul (.var "Y") (.flt ⟨0x4000000000000000, "2", none⟩), by decide, by decide⟩
+/-- `litStable` discharged: a literal whose text shows a point, an exponent, `inf` or `NaN` — what `{:?}`
+    prints for every f64 — is read back as a float. -/
+theorem float_text_stable (f : FloatLit) (h : f.hasPoint = true) : f.stable = true := stable_of_hasPoint f h
 
-/-- without the identifier condition it is false as well: `V1e-1` is not split at the `-`. -/
-theorem arith_roundtrip_needs_names :
-    ∃ e : AExpr, e.litStable = true ∧ parseArith (printArith e) ≠ some e :=
-  ⟨.bin .sub (.var "V1e") (.const 1), by decide, by decide⟩
+example : (⟨0x4000000000000000, "2.0", none⟩ : FloatLit).hasPoint = true ∧ (⟨0x4202a05f20000000, "10000000000.0", none⟩ : FloatLit).hasPoint = true
+    ∧ (⟨0x7e37e43c8800759c, "1e300", none⟩ : FloatLit).hasPoint = true ∧ (⟨0x4000000000000000, "2", none⟩ : FloatLit).hasPoint = false := by decide
 
-/-! ### terms and rules: parse ∘ print = id -/
-
-/-- Every well-formed term whose float literals are stable and whose arithmetic hides no `+`/`-`
-    is read back from its printed tokens: variables, integers, floats, strings, booleans, `_`,
-    arithmetic, aggregates, vectors and builtin calls. -/
-theorem term_roundtrip (t : Term) (hwf : t.wf = true) (hl : t.litStable = true) (hs : t.sciHidden = false) :
-    parseTerm (printTerm t) = some t := ILV.RText.term_roundtrip t hwf hl hs
+/-- Every well-formed term is read back from its printed tokens: variables, integers, floats, strings,
+    booleans, `_`, arithmetic, aggregates, vectors and builtin calls. -/
+theorem term_roundtrip (t : Term) (hwf : t.wf = true) : parseTerm (printTerm t) = some t :=
+  ILV.RText.term_roundtrip t hwf
 
 example :
-    let t : Term := .call "euclidean" [.var "V", .vec [⟨0x3ff0000000000000, "1", none⟩, ⟨0, "0", none⟩],
+    let t : Term := .call "euclidean" [.var "V", .vec [⟨0x3ff0000000000000, "1.0", none⟩, ⟨0, "0.0", none⟩],
       .arith (.bin .sub (.var "Y") (.const 3))]
-    t.wf = true ∧ t.litStable = true ∧ t.sciHidden = false ∧ parseTerm (printTerm t) = some t := by decide
+    t.wf = true ∧ parseTerm (printTerm t) = some t := by decide
 
-/-- Every well-formed rule (`Rule.wf`: what the parser produces — variable-shaped variables, an operator at
-    the root of every arithmetic term, canonical aggregate / builtin names, no aggregate or vector as a
-    comparison side) with stable float literals, no hidden `+`/`-` and no atom whose last argument prints
-    with a closing parenthesis is read back from its printed tokens — head, `<-`, comma-separated
-    positive / negated atoms and comparisons. -/
-theorem rule_roundtrip (r : Rule) (hwf : r.wf = true) (hl : r.litStable = true) (hs : r.sciHidden = false)
-    (hp : r.atomParen = false) : parseRule (printRule r) = some r := ILV.RText.rule_roundtrip r hwf hl hs hp
+/-- **Round trip.** Every well-formed rule (`Rule.wf`, decidable: what the parser produces —
+    variable-shaped variables, an operator at the root of every arithmetic term, arithmetic variables that
+    do not start with a digit, canonical aggregate / builtin names, finite float literals with their `{:?}`
+    text, no aggregate or vector as a comparison side) is read back from its printed tokens — head, `<-`,
+    comma-separated positive / negated atoms and comparisons.  No condition on float values, identifiers
+    ending in `<digit>e`, or arguments ending in `)` remains. -/
+theorem rule_roundtrip (r : Rule) (hwf : r.wf = true) : parseRule (printRule r) = some r :=
+  ILV.RText.rule_roundtrip r hwf
 
-/-! ### the paths, relative to the print/parse round trip -/
+/-! ### the paths -/
 
 /-- If print ∘ parse is the identity on `r`, the catalog serialisation keeps every term of `r`, and
     serde_json reads `r`'s float literals back exactly, then the session path, the persistent path and
@@ -71,16 +69,24 @@ theorem paths_agree_of_roundtrip (r : Rule)
   · simp [viaRestart, viaInline, hrt, hser, Rule.afterJson_id r hj]
 
 def exF (bits : Nat) (text : String) : FloatLit := ⟨bits, text, some (bits, text)⟩
-/-- `p(X, Z) <- q(X, Y), !r(Y, "a"), Z = (Y + 1) * 2.5, Z >= 1.5` -/
+/-- `p(X, Z) <- q(X, Y), !r(Y, "a"), s(X, true), Z = (Y + 1) * 2.0, Z >= abs(Y)` -/
 def exRule : Rule :=
   ⟨⟨"p", [.base (.var "X"), .base (.var "Z")]⟩,
    [.pos ⟨"q", [.base (.var "X"), .base (.var "Y")]⟩, .neg ⟨"r", [.base (.var "Y"), .base (.str "a")]⟩,
-    .cmp (.base (.var "Z")) .eq (.base (.arith (.bin .mul (.bin .add (.var "Y") (.const 1)) (.flt (exF 0x4004000000000000 "2.5"))))),
-    .cmp (.base (.var "Z")) .ge (.base (.flt (exF 0x3ff8000000000000 "1.5")))]⟩
+    .pos ⟨"s", [.base (.var "X"), .base (.bool true)]⟩,
+    .cmp (.base (.var "Z")) .eq (.base (.arith (.bin .mul (.bin .add (.var "Y") (.const 1)) (.flt (exF 0x4000000000000000 "2.0"))))),
+    .cmp (.base (.var "Z")) .ge (.call "abs" [.var "Y"])]⟩
 
-example : parseRule (printRule exRule) = some exRule ∧ serRule exRule = exRule ∧ exRule.jsonExact = true := by decide
+/-- **C09 (what holds).** Every well-formed rule without vector literals, whose floats serde_json reads
+    back exactly (its documented behaviour with `float_roundtrip`, observed per literal), reaches the engine
+    unchanged on the session / request-local path, the persistent path and the persistent path after
+    restart — it behaves as the inline rule.  The only excluded family left is `¬ serStable`: vector
+    literals, which the catalog serialisation still turns into `_`. -/
+theorem C09_partial (r : Rule) (hwf : r.wf = true) (hser : r.serStable = true) (hj : r.jsonExact = true) :
+    viaSession r = viaInline r ∧ viaPersistent r = viaInline r ∧ viaRestart r = viaInline r :=
+  paths_agree_of_roundtrip r (rule_roundtrip r hwf) (by simpa [Rule.serStable] using hser) hj
 
-/-! ### the property, refuted on the faithful model -/
+example : exRule.wf = true ∧ exRule.serStable = true ∧ exRule.jsonExact = true := by decide
 
 /-- rules the parser can produce -/
 def InImage (r : Rule) : Prop := ∃ ts, parseRule ts = some r
@@ -90,120 +96,39 @@ def InImage (r : Rule) : Prop := ∃ ts, parseRule ts = some r
 def C09_statement : Prop :=
   ∀ r, InImage r → viaSession r = viaInline r ∧ viaPersistent r = viaInline r ∧ viaRestart r = viaInline r
 
-def f2 : FloatLit := exF 0x4000000000000000 "2"
-/-- `p(X, 2.0) <- q(X)` -/
-def wFloat : Rule := ⟨⟨"p", [.base (.var "X"), .base (.flt f2)]⟩, [.pos ⟨"q", [.base (.var "X")]⟩]⟩
+def f1 : FloatLit := exF 0x3ff0000000000000 "1.0"
+/-- `p(X) <- q(X, [1.0])` -/
+def wVec : Rule := ⟨⟨"p", [.base (.var "X")]⟩, [.pos ⟨"q", [.base (.var "X"), .base (.vec [f1])]⟩]⟩
 
-/-- Refutation: `p(X, 2.0) <- q(X)` is printed as `p(X, 2) <- q(X)` and re-read with an integer head
-    constant on the session path already. -/
+/-- Still refuted, by the one family left: a vector literal in a persistent rule is stored as `_`
+    (`SerializableTerm` has no variant for it), while the session path keeps it. -/
 theorem C09_refuted : ¬ C09_statement := by
   intro h
-  have hin : InImage wFloat :=
-    ⟨[.ident "p", .lp, .ident "X", .comma, .flt f2, .rp, .arrow, .ident "q", .lp, .ident "X", .rp], by decide⟩
-  have := (h wFloat hin).1
+  have hin : InImage wVec :=
+    ⟨[.ident "p", .lp, .ident "X", .rp, .arrow, .ident "q", .lp, .ident "X", .comma, .lb, .flt f1, .rb, .rp], by decide⟩
+  have := (h wVec hin).2.1
   revert this
   decide
 
-/-- `p(X, Z) <- q(X, V1e), Z = V1e - 1`: the printed `V1e-1` is not an arithmetic term any more. -/
+example : wVec.wf = true ∧ wVec.jsonExact = true ∧ wVec.serStable = false ∧ viaSession wVec = some wVec := by decide
+
+/-! ### the repaired families: their old witnesses now pass -/
+
+def wFloat : Rule := ⟨⟨"p", [.base (.var "X"), .base (.flt (exF 0x4000000000000000 "2.0"))]⟩, [.pos ⟨"q", [.base (.var "X")]⟩]⟩
 def wSci : Rule :=
   ⟨⟨"p", [.base (.var "X"), .base (.var "Z")]⟩,
    [.pos ⟨"q", [.base (.var "X"), .base (.var "V1e")]⟩,
     .cmp (.base (.var "Z")) .eq (.base (.arith (.bin .sub (.var "V1e") (.const 1))))]⟩
-theorem C09_refuted_sci_tail : wSci.litStable = true ∧ viaSession wSci = none := by decide
-
-/-- `p(X, 2*(Y+1)) <- q(X, Y)` (accepted when written `p(X, 2*(Y+1) )`): `parse_atom` trims the
-    closing parenthesis of the last argument together with its own. -/
 def wParen : Rule :=
   ⟨⟨"p", [.base (.var "X"), .base (.arith (.bin .mul (.const 2) (.bin .add (.var "Y") (.const 1))))]⟩,
    [.pos ⟨"q", [.base (.var "X"), .base (.var "Y")]⟩]⟩
-theorem C09_refuted_atom_paren : wParen.litStable = true ∧ wParen.sciHidden = false ∧ viaSession wParen = none := by decide
-
-/-- `p(X) <- s(X, true)`: fine as a session rule, but the catalog serialisation turns `true` into `_`. -/
 def wBool : Rule := ⟨⟨"p", [.base (.var "X")]⟩, [.pos ⟨"s", [.base (.var "X"), .base (.bool true)]⟩]⟩
-theorem C09_refuted_serialize :
-    viaSession wBool = some wBool ∧ viaPersistent wBool ≠ some wBool := by decide
 
-/-- `p(X, Z) <- r(X, Y), Z = Y * inf`: fine until the catalog file is read back (`null`). -/
-def fInf : FloatLit := ⟨0x7ff0000000000000, "inf", none⟩
-def wInf : Rule :=
-  ⟨⟨"p", [.base (.var "X"), .base (.var "Z")]⟩,
-   [.pos ⟨"r", [.base (.var "X"), .base (.var "Y")]⟩,
-    .cmp (.base (.var "Z")) .eq (.base (.arith (.bin .mul (.var "Y") (.flt fInf))))]⟩
-theorem C09_refuted_json_nonfinite :
-    viaSession wInf = some wInf ∧ viaPersistent wInf = some wInf ∧ viaRestart wInf = none := by decide
+example : wFloat.wf = true ∧ wSci.wf = true ∧ wParen.wf = true ∧ wBool.wf = true
+    ∧ viaRestart wFloat = some wFloat ∧ viaRestart wSci = some wSci ∧ viaRestart wParen = some wParen
+    ∧ viaRestart wBool = some wBool := by decide
 
-/-- a float that serde_json (without `float_roundtrip`) reads back one ulp off: same process fine,
-    different rule after restart. -/
-def fUlp : FloatLit :=   -- 5.4899391143738107e51, as observed on the pinned tree
-  ⟨0x4aad58bcd0036ba2, "5489939114373810700000000000000000000000000000000000",
-   some (0x4aad58bcd0036ba1, "5489939114373810000000000000000000000000000000000000")⟩
-def wUlp : Rule := ⟨⟨"p", [.base (.var "X"), .base (.flt fUlp)]⟩, [.pos ⟨"q", [.base (.var "X")]⟩]⟩
-theorem C09_refuted_json_inexact :
-    viaSession wUlp = some wUlp ∧ viaPersistent wUlp = some wUlp ∧ viaRestart wUlp ≠ some wUlp := by decide
-
-/-! ### what holds -/
-
-/-- C09_partial: every well-formed rule outside the five excluded families — each named by a decidable
-    predicate of the rule: `¬ litStable` (integral float literals), `sciHidden` (`+`/`-` after an
-    identifier ending in `<digit>e`), `atomParen` (last atom argument ends in `)`), `¬ serStable`
-    (booleans, vectors, function calls, which the catalog serialisation drops), `¬ jsonExact` (floats
-    serde_json does not read back exactly) — reaches the engine unchanged on the session path, the
-    persistent path and the persistent path after restart, i.e. behaves as the inline rule. -/
-theorem C09_partial (r : Rule) (hwf : r.wf = true)
-    (hl : r.litStable = true) (hs : r.sciHidden = false) (hp : r.atomParen = false)
-    (hser : r.serStable = true) (hj : r.jsonExact = true) :
-    viaSession r = viaInline r ∧ viaPersistent r = viaInline r ∧ viaRestart r = viaInline r :=
-  paths_agree_of_roundtrip r (rule_roundtrip r hwf hl hs hp) (by simpa [Rule.serStable] using hser) hj
-
-/-! ### `litStable` discharged -/
-
-/-- On the printed text: a literal whose text (after an optional sign) has any non-digit character —
-    a decimal point, `inf`, `NaN` — keeps its kind. -/
-theorem stable_of_nondigit (f : FloatLit) (c : Char) (hc : c ∈ f.text.toList) (hnd : c.isDigit = false)
-    (hsign : c ≠ '-' ∧ c ≠ '+') : f.stable = true := by
-  have hmem : c ∈ (stripSign f.text.toList).2 := by
-    unfold stripSign
-    split
-    · rename_i r heq
-      rw [heq] at hc
-      exact (List.mem_cons.mp hc).resolve_left hsign.1
-    · rename_i r heq
-      rw [heq] at hc
-      exact (List.mem_cons.mp hc).resolve_left hsign.2
-    · exact hc
-  have hall : (stripSign f.text.toList).2.all Char.isDigit = false := by
-    cases h : (stripSign f.text.toList).2.all Char.isDigit with
-    | false => rfl
-    | true => have := List.all_eq_true.mp h c hmem; simp [hnd] at this
-  unfold FloatLit.stable parseI64
-  simp [hall]
-
-example : (⟨0x4004000000000000, "2.5", none⟩ : FloatLit).stable = true :=
-  stable_of_nondigit _ '.' (by decide) (by decide) (by decide)
-
-/-- On the bits (`bitsStable`: not an integer of magnitude below 2⁶³) — the classification the `c09.lit`
-    requests compare with Rust's formatter and parser on every boundary value and 20 000 random doubles:
-    2.5, 2⁶³, −2⁶³, 5e-324, ∞ keep their kind; 2.0, −0.0, 2⁶³−1024 do not. -/
-example : bitsStable 0x4004000000000000 = true ∧ bitsStable 0x43e0000000000000 = true ∧ bitsStable 0xc3e0000000000000 = true
-    ∧ bitsStable 1 = true ∧ bitsStable 0x7ff0000000000000 = true
-    ∧ bitsStable 0x4000000000000000 = false ∧ bitsStable 0x8000000000000000 = false ∧ bitsStable 0x43dfffffffffffff = false := by decide
-
-/-- `C09_partial` with the literal condition stated on the bits, for rules whose literal texts classify as
-    their bits do (what `c09.lit` establishes for Rust's `{}`). -/
-theorem C09_partial_bits (r : Rule) (hwf : r.wf = true)
-    (hfmt : ∀ f, f ∈ r.floats → f.stable = bitsStable f.bits)
-    (hl : ∀ f, f ∈ r.floats → bitsStable f.bits = true)
-    (hs : r.sciHidden = false) (hp : r.atomParen = false) (hser : r.serStable = true) (hj : r.jsonExact = true) :
-    viaSession r = viaInline r ∧ viaPersistent r = viaInline r ∧ viaRestart r = viaInline r :=
-  C09_partial r hwf (List.all_eq_true.mpr fun f hf => by rw [hfmt f hf]; exact hl f hf) hs hp hser hj
-
-/-- each excluded family is necessary: dropping its hypothesis alone is refuted by the witnesses above -/
-example : wFloat.wf = true ∧ wFloat.sciHidden = false ∧ wFloat.atomParen = false ∧ wFloat.serStable = true ∧ wFloat.jsonExact = true := by decide
-example : wSci.wf = true ∧ wSci.litStable = true ∧ wSci.atomParen = false ∧ wSci.serStable = true ∧ wSci.jsonExact = true := by decide
-example : wParen.wf = true ∧ wParen.litStable = true ∧ wParen.sciHidden = false ∧ wParen.serStable = true ∧ wParen.jsonExact = true := by decide
-example : wBool.wf = true ∧ wBool.litStable = true ∧ wBool.sciHidden = false ∧ wBool.atomParen = false ∧ wBool.jsonExact = true := by decide
-example : wUlp.wf = true ∧ wUlp.litStable = true ∧ wUlp.sciHidden = false ∧ wUlp.atomParen = false ∧ wUlp.serStable = true := by decide
-
-example : exRule.wf = true ∧ exRule.serStable = true ∧ exRule.litStable = true ∧ exRule.sciHidden = false ∧ exRule.atomParen = false ∧ exRule.jsonExact = true := by decide
+/-- a non-finite constant is no longer in the parser's image (token `inf` as a float is rejected) -/
+example : parseArith [.ident "Y", .op .mul, .flt ⟨0x7ff0000000000000, "inf", none⟩] = none := by decide
 
 end ILV.Props.C09
